@@ -1,5 +1,5 @@
 """Registry of the claimed properties: Lean module, correspondence parts, trusted base."""
-from .domains import upcast
+from .domains import upcast, bus
 
 COMMON_ASSUME = [
     "the hand-written Lean model equals the Go code only on the inputs the correspondence ran (differential testing, reported under coverage)",
@@ -7,17 +7,39 @@ COMMON_ASSUME = [
 
 PROPS = {
     "C16": dict(
-        module="Ebu.Props.C16",
+        module="Ebu.Props.C16", ready=True,
+        level_text="Proof: the cycle check is proved to decide reachability over the declared edges (soundness, completeness, termination of the recursion), acceptance is characterised exactly, acyclicity is an invariant of every sequence of register/clear/clearType, and apply is proved to terminate within |registry|+1 upcaster calls for EVERY registry and every choice of returned type names. All quantifiers unbounded. The model is tied to upcast.go by differential runs (exhaustive small registration sequences + random).",
+        level_note="Trusted: Lean kernel + propext/Quot.sound; the correspondence harness; Go map/slice semantics as modelled (per-source registration order). Racing registrations are covered only through the lock-discipline facts of C03 (validation and insertion in one write-locked section), not by this check's sequential correspondence — partial for the 'schedules' quantifier.",
         parts=[dict(name="upcast16", domain="upcast", domain_module="upcast", gen=upcast.gen_c16, n_quick=250, n_thorough=12000)],
         rule="cases = exhaustive registration sequences over 3 names (length<=2 quick, <=3 thorough) + random sequences over up to 8 names with clears and raw upcasters returning undeclared types; non-trivial = a cycle was rejected or an upcast function ran; distinct = distinct implementation traces",
         trusted_base=["Go maps modelled as association by key with per-key registration order", "encoding/json round trip of []int payloads"],
         assumptions=COMMON_ASSUME + ["racing registrations: validation+insertion happen in one write-locked section (extracted lock facts, see C03); the LTS argument is sequential consistency of that lock"],
     ),
     "C17": dict(
-        module="Ebu.Props.C17",
+        module="Ebu.Props.C17", ready=True,
+        level_text="Proof: on success apply returns exactly the composition of the first-registered upcaster of each successive type (relational spec Chain), on any failure the original data and type, the error handler is called exactly once for a failing upcast function with that step's type and input; completeness for honest acyclic registries; replay passes offset/timestamp through. Unbounded over graphs, payloads and failure positions.",
+        level_note="Trusted: Lean kernel + propext/Quot.sound; correspondence harness; payload transformation abstracted to 'append the upcaster tag' plus an untouched optional field (typed upcasters are exercised with real struct types so decode/encode staleness is visible); encoding/json.",
         parts=[dict(name="upcast17", domain="upcast", domain_module="upcast", gen=upcast.gen_c17, n_quick=300, n_thorough=15000)],
         rule="cases = chains, branches, several upcasters per source and random graphs over <=6 names (+ typed upcasters), one failing step injected at a random position, every type replayed; non-trivial = a chain of >=2 steps ran or the error handler fired; distinct = distinct implementation traces",
         trusted_base=["encoding/json round trip of []int payloads", "payload transformation abstracted to 'append the upcaster's tag'"],
         assumptions=COMMON_ASSUME,
     ),
 }
+
+BUS_TB = ["handler/filter/hook bodies are restricted to the action language of M1 (subscribe, unsubscribe, clear, clearAll, publish, cancel, panic, queries, readLog)",
+          "async goroutines are run in spawn order at `drain` (one legal schedule, forced through the verif hook); other schedules are C02/C04/C06/C07's interleaving model",
+          "Go maps modelled as functions from keys to slices; reflect.Value.Pointer() identity modelled by `hid`", "encoding/json of the harness event structs"]
+
+def _bus(prop, module, rule, nq=400, nt=20000):
+    return dict(module=module,
+                parts=[dict(name="bus" + prop, domain="bus", domain_module="bus", gen=bus.make_gen(prop), n_quick=nq, n_thorough=nt, chunk=128)],
+                rule=rule, trusted_base=BUS_TB, assumptions=COMMON_ASSUME)
+
+PROPS.update({
+    "C01": _bus("C01", "Ebu.Props.C01", "random programs over 40 Go event types (12 pairs share one of the 32 shards; every case uses at least one colliding pair), 12 handler identities, all Once/Async/Sequential/filter/context-aware combinations, handler bodies nested to depth 3 that subscribe/unsubscribe/clear/publish/cancel/panic; non-trivial = >=2 handler entries and a re-entrant registry operation or query from inside a handler; distinct = distinct implementation traces"),
+    "C05": _bus("C05", "Ebu.Props.C05", "as C01 with panicking bodies in ~half of the handlers and a panic handler set in 80% of cases; non-trivial = the panic handler fired or a panicking body ran next to other handlers"),
+    "C08": _bus("C08", "Ebu.Props.C08", "as C01 with dead / fresh / inherited contexts, cancel actions inside handlers, all 16 hook combinations; non-trivial = hooks fired, a handler ran and a context was cancelled"),
+    "C09": _bus("C09", "Ebu.Props.C09", "as C01 on a persistent bus: options in random order (WithStore anywhere, sometimes twice), unencodable events, store faults, readLog from inside handlers; non-trivial = a record was appended and a handler ran"),
+    "C13": _bus("C13", "Ebu.Props.C13", "as C09 with a fault script failing ~35% of appends (including the first, and consecutive ones) and 20% unencodable events; non-trivial = an append failed or the persistence error handler fired"),
+    "C20": _bus("C20", "Ebu.Props.C20", "as C01 with a recording Observability always installed, persistence in 70% of cases; non-trivial = at least 6 callback events"),
+})
